@@ -187,7 +187,70 @@ def state_law(s):
     return None
 
 
-_worker = dyn.make_worker(judge, state_law=state_law, uses_held=lambda names: True)
+_REPS = {}
+
+
+def value_semantics(s):
+    """answers depend on the VALUE of their arguments: ask about a state object, change that object in place (move / turn
+    the agent, open a door), ask again - the second answer must equal the answer for a freshly built equal state.  Asked
+    of: the four observation functions, the state / observation representations, the shortest-path reward."""
+    from gym_gridverse.geometry import Position
+    from gym_gridverse.grid_object import Door
+
+    from .. import reps as P
+    from ..desc import ORI
+
+    H, W = R.shape(s[0])
+    st = mkstate(s)
+    types = sorted({o[0] for row in s[0] for o in row} | {'Floor'} | ({s[4][0]} if s[4][0] != 'NoneGridObject' else set()))
+    if 'Box' in types or 'Hidden' in types:
+        srep = None
+    else:
+        key = (H, W, tuple(types))
+        if key not in _REPS:
+            sp = P.state_space((H, W), types, (1, 2, 3, 4))
+            _REPS[key] = [P.make_state_representation(r, sp) for r in P.REPS] if H > 1 and W > 1 else []
+        srep = _REPS[key]
+    area = ((-2, 0), (-1, 1))
+
+    def ask(obj):
+        out = []
+        for name in c01.OBS_FUNCS:
+            try:
+                out.append(sdesc(c01.obs_fn(name, area)[0](obj, rng=ChoiceRng([]))))
+            except Exception as e:  # noqa: BLE001
+                out.append(type(e).__name__)
+        for rp in (srep or []):
+            try:
+                out.append(tuple((k, v.tobytes()) for k, v in sorted(rp.convert(obj).items())))
+            except Exception as e:  # noqa: BLE001
+                out.append(type(e).__name__)
+        return out
+
+    ask(st)
+    # in-place changes
+    s2_rows = s[0]
+    for yy, row in enumerate(st.grid.objects):
+        for xx, o in enumerate(row):
+            if isinstance(o, Door) and o.state is not Door.Status.OPEN:
+                o.state = Door.Status.OPEN
+                s2_rows = R._set(s2_rows, (yy, xx), ('Door', 0, s2_rows[yy][xx][2], None))
+    st.agent.position = Position((s[1] + 1) % H, (s[2] + 1) % W)
+    st.agent.orientation = ORI[R.TURN_LEFT[s[3]]]
+    s2 = (s2_rows, (s[1] + 1) % H, (s[2] + 1) % W, R.TURN_LEFT[s[3]], s[4])
+    if sdesc(st) != s2:
+        return None
+    if ask(st) != ask(mkstate(s2)):
+        return ('after changing a state object in place (agent moved and turned, doors opened) an observation / representation of it '
+                'differs from that of a freshly built equal state')
+    return None
+
+
+def state_law_all(s):
+    return state_law(s) or value_semantics(s)
+
+
+_worker = dyn.make_worker(judge, state_law=state_law_all, uses_held=lambda names: True)
 
 
 # ---------------------------------------------------------------- (iii) cache histories
@@ -351,7 +414,7 @@ def replay(case):
     if case['kind'] == 'step':
         return judge(tuple(case['names']), tup(case['s']), case['a'])[2]
     if case['kind'] == 'state_law':
-        return state_law(tup(case['s']))
+        return state_law_all(tup(case['s']))
     if case['kind'] == 'history':
         return judge_history(case['seq'], case['prologue'])
     raise ValueError(case['kind'])
